@@ -164,7 +164,10 @@ def eq(interp, a: Any, b: Any) -> Any:
             r1 = interp.eq(a.attrs["lex"], b.attrs["lex"])
             if r1 is False:
                 return False
-            r2 = interp.eq(a.attrs["language"], b.attrs["language"])
+            la, lb = a.attrs["language"], b.attrs["language"]
+            if isinstance(la, str) and isinstance(lb, str):
+                la, lb = la.lower(), lb.lower()  # rdflib.term.Literal.__eq__/__hash__ compare language tags lower-cased
+            r2 = interp.eq(la, lb)
             if r2 is False:
                 return False
             r3 = interp.eq(a.attrs["datatype"], b.attrs["datatype"])
